@@ -123,6 +123,10 @@ CLAIMED = {
             "a manifest loaded from disk is re-rooted at the opened directory before it is published; SegmentPaths are built only by "
             "directory::segment_paths as root.join(name-with-id); every root handed to the path builders derives from the opened "
             "directory", "5/C28"),
+    "C22": ("counter discipline over natural loops (increment only under a contains_key miss, no loop exit on the counter), accumulation flow of doc_freq, comparator argument order",
+            "three clauses: the scan cap counts distinct terms and never stops the scan of later segments (doc_freq below the cap is "
+            "layout-independent); doc_freq is accumulated by addition wherever it is written; options are sorted score-descending then "
+            "text-ascending and cut to size after the sort. Which terms match and their frequencies are runtime facts and NOT decided", "5/C22"),
     "C30": ("must-order of the page-cutting steps, key-function agreement between sort and filter, operator strictness, provenance of after_key",
             "the page-cutting skeleton of finalize_composite: sort, then filter by `after`, then has_more = (len > size), then cut; sort "
             "and filter build keys with the same function; the filter is strictly `>` and has_more strictly `>`; after_key is the "
@@ -131,7 +135,6 @@ CLAIMED = {
 
 NA = {
     "C18": "group representatives and inner-hit windows are ordering properties of runtime hit lists",
-    "C22": "determinism and doc-frequency equality of suggestions depend on dictionary contents and a runtime scan cap",
     "C27": "quantifies over orderings of browser tasks / IndexedDB completions and the module is cfg(target_arch=\"wasm32\"): no wasm32 target is installed, so the code cannot be type-checked here",
     "C29": "similarity values, blending and nearest-neighbour exactness are numerical / algorithmic; the feature is outside the pinned build",
 }
